@@ -454,6 +454,30 @@ pub fn flatten(doc: &[Node], lay: &[Lay]) -> Vec<(NItem, usize)> {
     out
 }
 
+/// like `flatten`, with the layout index of the node each item belongs to
+pub fn flatten_ex(doc: &[Node], lay: &[Lay]) -> Vec<(NItem, usize, usize)> {
+    fn rec(nodes: &[Node], lay: &[Lay], li: &mut usize, out: &mut Vec<(NItem, usize, usize)>) {
+        for n in nodes {
+            let my = *li;
+            *li += 1;
+            let ts = lay[my].tag_start;
+            match &n.kind {
+                Kind::Leaf { val, .. } => out.push((NItem::Leaf(n.id, val.clone()), ts, my)),
+                Kind::RawLeaf(b) => out.push((NItem::Raw(n.id, b.clone()), ts, my)),
+                Kind::Master(ch) => {
+                    out.push((NItem::Start(n.id), ts, my));
+                    rec(ch, lay, li, out);
+                    out.push((NItem::End(n.id), ts, my));
+                }
+            }
+        }
+    }
+    let mut out = Vec::new();
+    let mut li = 0;
+    rec(doc, lay, &mut li, &mut out);
+    out
+}
+
 pub fn flatten_items(doc: &[Node]) -> Vec<NItem> {
     let (_, lay) = ref_encode(doc);
     flatten(doc, &lay).into_iter().map(|x| x.0).collect()
